@@ -226,3 +226,36 @@ def r6(rr, repo):
 def r7(rr, repo):
     from .c13 import r8 as c13r8
     c13r8(rr, repo)
+
+
+@rule('C14.R8', 'what is saved can be restored: write_head writes exactly one JSON document - the position pair, followed by a newline - and the restore parses the whole (stripped) content of the head file with the inverse, '
+                'then checks it is the same two-element [str, int] shape tell() produces and seek() unpacks')
+def r8(rr, repo):
+    mod, wh = repo.find(f'{RL}::RollLog.write_head')
+    _, init = repo.find(f'{RL}::RollLog.__init__')
+    _, tell = repo.find(f'{RL}::RollLog.tell')
+    _, seek = repo.find(f'{RL}::RollLog.seek')
+    writes = [c for c in q.calls_in(wh) if isinstance(c.func, ast.Attribute) and c.func.attr == 'write']
+    rr.floor('writes in write_head', len(writes), 1, mod, wh)
+    pos = q.func_params(wh)[1] if len(q.func_params(wh)) > 1 else 'pos'
+    for c in writes:
+        a = c.args[0] if c.args else None
+        ok = isinstance(a, ast.BinOp) and isinstance(a.op, ast.Add) and isinstance(a.right, ast.Constant) and a.right.value == '\n' and isinstance(a.left, ast.Call) and U(a.left.func) in ('json_dumps', 'json.dumps') \
+            and len(a.left.args) == 1 and U(a.left.args[0]) == pos and not a.left.keywords
+        rr.ob('the head file holds json_dumps(position) and a newline, nothing else', ok, mod, c, witness=U(a)[:80] if a is not None else '', key='head-written')
+    rr.ob('exactly one write per save (the document cannot be torn across writes)', len(writes) == 1, mod, wh, key='head-one-write')
+    loads = [c for c in q.calls_in(init) if U(c.func) in ('json_loads', 'json.loads')]
+    rr.floor('parses of the head file', len(loads), 1, mod, init)
+    for c in loads:
+        t = U(c.args[0]) if c.args else ''
+        rr.ob('the restore parses the whole content of the head file (read(), surrounding white space stripped) with the inverse of the writer', re.fullmatch(r'\w+\.read\(\)(\.strip\(\))?', t) is not None and len(c.args) == 1, mod, c, witness=t, key='head-parsed')
+    # tell() yields pairs, seek() unpacks pairs
+    rets = [r for r in ast.walk(tell) if isinstance(r, ast.Return) and r.value is not None]
+    def pair(v):
+        if isinstance(v, ast.IfExp):
+            return pair(v.body) and pair(v.orelse)
+        return isinstance(v, ast.Tuple) and len(v.elts) == 2
+    rr.ob('every position tell() reports is a pair', bool(rets) and all(pair(r.value) for r in rets), mod, tell, witness='; '.join(U(r.value)[:50] for r in rets)[:200], key='tell-pairs')
+    p_seek = q.func_params(seek)[1]
+    unp = [n for n in walk_scope(seek) if isinstance(n, ast.Assign) and isinstance(n.targets[0], ast.Tuple) and len(n.targets[0].elts) == 2 and U(n.value) == p_seek]
+    rr.ob('seek() takes a position apart as (file name, offset)', len(unp) == 1, mod, seek, key='seek-unpacks-pair')
